@@ -262,4 +262,252 @@ theorem getSortedModules_spec (pick : List Name → Nat)
 
 end dfs
 
+section shutdown
+open Frappy.Spec.C15
+
+theorem pairwise_of_forall {α : Type} {R : α → α → Prop} (h : ∀ a b, R a b) : ∀ l : List α, l.Pairwise R
+  | [] => List.Pairwise.nil
+  | a :: l => List.Pairwise.cons (fun b _ => h a b) (pairwise_of_forall h l)
+
+theorem count_map_one (f : Name → Ev) (hf : ∀ a b, f a = f b → a = b) :
+    ∀ (l : List Name), l.Nodup → ∀ m ∈ l, (l.map f).count (f m) = 1 := by
+  intro l
+  induction l with
+  | nil => intro _ m hm; cases hm
+  | cons a l ih =>
+    intro hnd m hm
+    have hnd' := List.nodup_cons.mp hnd
+    rcases List.mem_cons.mp hm with rfl | hm
+    · have : (l.map f).count (f m) = 0 := by
+        rw [List.count_eq_zero]
+        intro h
+        obtain ⟨x, hx, hxe⟩ := List.mem_map.mp h
+        have := hf _ _ hxe
+        subst this
+        exact hnd'.1 hx
+      simp [this]
+    · have hne : f a ≠ f m := by
+        intro h
+        have := hf _ _ h
+        subst this
+        exact hnd'.1 hm
+      simp [ih hnd'.2 m hm, hne]
+
+theorem count_map_zero (f : Name → Ev) (e : Ev) (h : ∀ a, f a ≠ e) (l : List Name) : (l.map f).count e = 0 := by
+  rw [List.count_eq_zero]
+  intro hm
+  obtain ⟨x, _, hx⟩ := List.mem_map.mp hm
+  exact h x hx
+
+theorem mem_attOf {edges : List (Name × Name)} {u d : Name} : d ∈ attOf edges u ↔ (u, d) ∈ edges := by
+  unfold attOf
+  simp only [List.mem_map, List.mem_filter, beq_iff_eq]
+  constructor
+  · rintro ⟨⟨a, b⟩, ⟨hm, ha⟩, hb⟩
+    simp only at ha hb
+    subst ha; subst hb
+    exact hm
+  · intro h
+    exact ⟨(u, d), ⟨h, rfl⟩, rfl⟩
+
+/-- the shutdown phase of the model satisfies the shutdown clause of the statement, for every choice function -/
+theorem shutdownLog_order (mods : List Name) (edges : List (Name × Name)) (pick : List Name → Nat)
+    (rank : Name → Nat) (hnd : mods.Nodup)
+    (hclosed : ∀ e ∈ edges, e.1 ∈ mods → e.2 ∈ mods)
+    (hrank : ∀ e ∈ edges, rank e.2 < rank e.1)
+    (hbound : ∀ m ∈ mods, rank m ≤ mods.length) :
+    ShutdownOrder mods edges (shutdownLog mods edges pick) := by
+  obtain ⟨snd, smem, ssort⟩ := getSortedModules_spec (attOf edges) mods rank pick
+    (fun u hu d hd => hclosed (u, d) (mem_attOf.mp hd) hu)
+    (fun u _ d hd => hrank (u, d) (mem_attOf.mp hd)) hbound
+  unfold shutdownLog
+  refine ⟨?_, ?_, ?_⟩
+  · unfold NeverAfter
+    rw [List.pairwise_append]
+    refine ⟨?_, ?_, ?_⟩
+    · rw [List.pairwise_map]
+      exact pairwise_of_forall (by intro a b; simp [isShutdown]) _
+    · rw [List.pairwise_map]
+      exact pairwise_of_forall (by intro a b; simp [isStopPoll]) _
+    · intro a ha b _
+      obtain ⟨x, _, rfl⟩ := List.mem_map.mp ha
+      simp [isShutdown]
+  · intro m hm
+    rw [List.count_append, List.count_append]
+    rw [count_map_one Ev.stopPoll (by intro a b h; cases h; rfl) mods hnd m hm,
+        count_map_zero Ev.shutdown (Ev.stopPoll m) (by intro a h; cases h),
+        count_map_zero Ev.stopPoll (Ev.shutdown m) (by intro a h; cases h),
+        count_map_one Ev.shutdown (by intro a b h; cases h; rfl) _ snd m ((smem m).mpr hm)]
+    exact ⟨rfl, rfl⟩
+  · intro e he _
+    unfold NeverAfter
+    rw [List.pairwise_append]
+    refine ⟨?_, ?_, ?_⟩
+    · rw [List.pairwise_map]
+      exact pairwise_of_forall (by intro a b; simp) _
+    · rw [List.pairwise_map]
+      refine ssort.imp ?_
+      intro a b hab h
+      simp only [beq_iff_eq, Ev.shutdown.injEq] at h
+      obtain ⟨rfl, rfl⟩ := h
+      exact hab (mem_attOf.mpr he)
+    · intro a ha b _
+      obtain ⟨x, _, rfl⟩ := List.mem_map.mp ha
+      simp
+
+end shutdown
+
+section waiting
+open Frappy.Spec.C15
+
+/-- every started poll thread is still pending or has reported its first round; prologues contain no `thread` event -/
+structure WInv (w : Wait) : Prop where
+  pend : ∀ t, Ev.thread t ∈ w.log → t ∈ w.pending ∨ Ev.rounddone t ∈ w.log
+  nothr : ∀ p ∈ w.todo, ∀ e ∈ p.2, isThread e = none
+
+theorem popThread_spec (t : Name) : ∀ (todo : List (Name × List Ev)),
+    (∀ e, (popThread t todo).1 = some e → ∃ p ∈ todo, e ∈ p.2) ∧
+    (∀ p' ∈ (popThread t todo).2, ∀ e' ∈ p'.2, ∃ p ∈ todo, e' ∈ p.2) := by
+  intro todo
+  induction todo with
+  | nil => simp [popThread]
+  | cons hd rest ih =>
+    obtain ⟨n, evs⟩ := hd
+    by_cases hn : (n == t) = true
+    · cases evs with
+      | nil =>
+        simp only [popThread, hn, if_true]
+        constructor
+        · intro e h
+          simp at h
+        · intro p' hp' e' he'
+          exact ⟨p', hp', he'⟩
+      | cons e evs' =>
+        simp only [popThread, hn, if_true]
+        refine ⟨?_, ?_⟩
+        · intro e0 h
+          cases h
+          exact ⟨(n, e :: evs'), by simp, by simp⟩
+        · intro p' hp' e' he'
+          rcases List.mem_cons.mp hp' with rfl | hp'
+          · exact ⟨(n, e :: evs'), by simp, by simp at he'; simp [he']⟩
+          · exact ⟨p', by simp [hp'], he'⟩
+    · have hn' : (n == t) = false := by simpa using hn
+      simp only [popThread, hn']
+      refine ⟨?_, ?_⟩
+      · intro e h
+        obtain ⟨p, hp, he⟩ := ih.1 e h
+        exact ⟨p, by simp [hp], he⟩
+      · intro p' hp' e' he'
+        rcases List.mem_cons.mp hp' with rfl | hp'
+        · exact ⟨(n, evs), by simp, he'⟩
+        · obtain ⟨p, hp, he⟩ := ih.2 p' hp' e' he'
+          exact ⟨p, by simp [hp], he⟩
+
+theorem winv_step (w : Wait) (a : Act) (h : WInv w) : WInv (actStep w a) := by
+  cases a with
+  | main =>
+    simp only [actStep, mainStep]
+    cases hm : w.mainTodo with
+    | nil => exact h
+    | cons e rest =>
+      refine ⟨?_, h.nothr⟩
+      intro t ht
+      simp only [List.mem_append, List.mem_singleton] at ht ⊢
+      rcases ht with ht | ht
+      · rcases h.pend t ht with hp | hp
+        · left
+          cases e <;> simp [hp]
+        · exact Or.inr (Or.inl hp)
+      · subst ht
+        left; simp
+  | step t =>
+    simp only [actStep, threadStep]
+    split
+    · have hps := popThread_spec t w.todo
+      cases hp : popThread t w.todo with
+      | mk oe todo' =>
+        rw [hp] at hps
+        cases oe with
+        | none => exact h
+        | some e =>
+          obtain ⟨p, hpm, hem⟩ := hps.1 e rfl
+          have hnt : isThread e = none := h.nothr p hpm e hem
+          refine ⟨?_, ?_⟩
+          · intro t' ht'
+            simp only [List.mem_append, List.mem_singleton] at ht' ⊢
+            rcases ht' with ht' | ht'
+            · rcases h.pend t' ht' with hp' | hp'
+              · by_cases he : (e == Ev.rounddone t) = true
+                · simp only [he, if_true]
+                  by_cases htt : t' = t
+                  · subst htt
+                    right; right
+                    exact (beq_iff_eq.mp he).symm
+                  · left
+                    exact (List.mem_erase_of_ne htt).mpr hp'
+                · have he' : (e == Ev.rounddone t) = false := by simpa using he
+                  simp only [he']
+                  exact Or.inl hp'
+              · exact Or.inr (Or.inl hp')
+            · subst ht'
+              simp [isThread] at hnt
+          · intro p' hp' e' he'
+            obtain ⟨p0, hp0, he0⟩ := hps.2 p' hp' e' he'
+            exact h.nothr p0 hp0 e' he0
+    · exact h
+  | expire =>
+    simp only [actStep]
+    split
+    · exact h
+    · refine ⟨?_, h.nothr⟩
+      intro t ht
+      simp only [List.mem_append, List.mem_singleton] at ht ⊢
+      rcases ht with ht | ht
+      · rcases h.pend t ht with hp | hp
+        · exact Or.inl hp
+        · exact Or.inr (Or.inl hp)
+      · cases ht
+  | wake =>
+    simp only [actStep, wakeStep]
+    split
+    · exact h
+    · split
+      · refine ⟨?_, h.nothr⟩
+        intro t ht
+        simp only [List.mem_append, List.mem_singleton] at ht ⊢
+        rcases ht with ht | ht
+        · rcases h.pend t ht with hp | hp
+          · exact Or.inl hp
+          · exact Or.inr (Or.inl hp)
+        · cases ht
+      · split
+        · refine ⟨?_, h.nothr⟩
+          intro t ht
+          simp only [List.mem_append, List.mem_singleton, List.mem_map] at ht ⊢
+          rcases ht with (ht | ⟨x, _, hx⟩) | ht
+          · rcases h.pend t ht with hp | hp
+            · exact Or.inl hp
+            · exact Or.inr (Or.inl (Or.inl hp))
+          · cases hx
+          · cases ht
+        · exact h
+
+theorem winv_run (sched : List Act) : ∀ (w : Wait), WInv w → WInv (waitRun w sched) := by
+  induction sched with
+  | nil => intro w h; exact h
+  | cons a rest ih =>
+    intro w h
+    exact ih _ (winv_step w a h)
+
+theorem winv_init (st : St) : WInv (waitInit st) := by
+  refine ⟨by intro t ht; simp [waitInit] at ht, ?_⟩
+  intro p hp e he
+  simp only [waitInit, List.mem_map] at hp
+  obtain ⟨t, _, rfl⟩ := hp
+  simp only [prologue, List.mem_append, List.mem_flatMap, List.mem_map, List.mem_singleton] at he
+  rcases he with (⟨m, _, p, _, rfl⟩ | ⟨m, _, rfl⟩) | rfl <;> rfl
+
+end waiting
+
 end Frappy.Proofs.Lifecycle
